@@ -25,7 +25,8 @@ EXTENDS Integers, Sequences, FiniteSets, TLC
 
 CONSTANTS NCH,          \* channels of a probe (384)
           NB,           \* channels of the abstract data-flow / call-tree models (6)
-          Variant       \* "fixed" = group recursion forwards the settings, "orig" = tree before the fix: commits (F6)
+          Variant       \* "fixed" = group recursion forwards the settings (after the three fix: commits for car /
+                        \* kfilt / fk, DESIGN 8 F6), "orig" = the recursion as it was before them
 
 Gens == {"NP1", "NP2", "NPultra"}
 
